@@ -238,6 +238,7 @@ class Check:
             queries=dict(branch=st["checks"] - st["prop_queries"], property=st["prop_queries"], index_obligations=ob["index_checks"], symbolic_index_obligations=ob["sym_index_checks"], dtype_obligations=ob["dtype_checks"], negative_index_uses=ob["negative_index_uses"]),
             solver_s=round(st["solver_s"], 2),
             solver="z3 %s (python API), one incremental solver per path" % _z3v(),
+            cross_checked=dict(queries_re_decided=st.get("xchecked", 0), answers_agreeing=st.get("xcheck_agree", 0), solvers=["/usr/bin/z3 4.8.12", "cvc5 1.0.3"], note="a sample of property queries is dumped to SMT-LIB2 and re-decided; a disagreement aborts the check as inconclusive; unknown / time-out of the other solver is ignored"),
             loop_iterations=st["loop_iters"],
             paths_cut=st["cut"],
             paths_over_budget=st["budget"],
